@@ -872,9 +872,9 @@ static void b_multiset(int kind, int nE, int n, const conf_t *cfg, const int *ep
 
 /* value alphabets: absent, 0, far below, min-1, min, mid1 < mid2, max, max+1, far above (duplicates removed; calendar
  * times have no upper bound, so "far above" is in range) */
-static const int64_t A_LEVEL[]  = {-1, 0, 1, 7, 13, 20, 21, FAR};
-static const int64_t A_PERIOD[] = {-1, 0, 1, 99, 100, 500, 3000, 20000, 20001, FAR};
-static const int64_t A_REQS[]   = {-1, 0, 1, 10, 4000, 16000, 16001, FAR};
+static const int64_t A_LEVEL[]  = {-1, 0, 1, 7, 13, 20, 21, 261, (1LL << 32) + 5, FAR};   /* 261, 2^32+5: in range only if truncated to 8 / 32 bits */
+static const int64_t A_PERIOD[] = {-1, 0, 1, 99, 100, 500, 3000, 20000, 20001, (1LL << 32) + 500, FAR};
+static const int64_t A_REQS[]   = {-1, 0, 1, 10, 4000, 16000, 16001, 65536 + 10, (1LL << 32) + 10, FAR};
 static const int64_t A_TIME[]   = {-1, 0, 1000, CAL_BEGIN - 1, CAL_BEGIN, 1400000000, 1600000000, FAR};
 #define NEL(a) ((int)(sizeof(a) / sizeof *(a)))
 
